@@ -339,6 +339,18 @@ def monomial(n, memo):
     return r
 
 
+def _nodes(root):
+    seen, out, todo = set(), [], [root]
+    while todo:
+        x = todo.pop()
+        if id(x) in seen:
+            continue
+        seen.add(id(x))
+        out.append(x)
+        todo.extend(x.args)
+    return out
+
+
 def int_pow_values(ctx, ipre, rnd):
     """int_pow<N>(q) holds x^N: the recursive helper is unfolded on the constant exponent, the
     result must be the monomial 1 * x^N, and no intermediate may be a power of x beyond the result's
@@ -383,6 +395,16 @@ def int_pow_values(ctx, ipre, rnd):
             for a in x.args:
                 walk(a)
         walk(d.ret)
+        # negative exponents (round 10, C14j): the raw expression is 1 / (x * ... * x) - one division, applied
+        # last, so that the result is the correctly rounded reciprocal whenever the positive power is exact
+        # (x = 3: 1/9).  A multiplication of already inverted values, (1/x)^N, has the same degree and the
+        # same number of operations but rounds 1/x first and compounds that error N times.
+        if e < 0:
+            late = [x for x in _nodes(d.ret) if x.op in ("fmul", "mul") and any((monomial(a, memo) or (0, 0))[1] < 0 for a in x.args)]
+            if late:
+                ctx.violation(key + "|order", "int_pow<%d> of a %s quantity multiplies values that are already inverted ((1/x)^%d): it differs from the raw 1 / x^%d whenever 1/x is inexact (x = 3, 10, ...)"
+                              % (e, r, -e, -e), "product of inverted values: %s\nresult: %s" % (late[0].pretty(), d.ret.pretty()))
+                continue
         if worst is not None:
             ctx.violation(key + "|intermediate", "int_pow<%d> of a %s quantity forms x^%d on the way to x^%d: that intermediate overflows / underflows for values whose power %d is representable"
                           % (e, r, worst[1], e, e), "intermediate: %s\nresult: %s" % (worst[0].pretty(), d.ret.pretty()))
@@ -440,11 +462,11 @@ def body(ctx):
     npow = int_pow_values(ctx, ipre, rnd)
     ctx.coverage.update(dict(
         evaluations=len(items) * len(configs) + nob[0], distinct_nontrivial=len(items) + nob[0],
-        rule="W item per (unit pair, rep pair) asserting result type, collapse-to-raw-number iff the model product/quotient is unitless (also for a unit divided by a differently spelled equal unit: Hz / s^-1, L / dm^3, N / (kg m / s^2), u / (unos * u)), unit exponents, rep and a constant value; per (unit, rep) for int_pow<-4..4>, sqrt, cbrt, 1/q; witness pairs for the integer-division guard and as_raw_number; IR wrapper pair per (operation, unit pair, rep pair) compared by DAG equality with the raw operator; int_pow<N> per (rep, N): recursive helper unfolded on the constant exponent, result is the monomial x^N and no intermediate has higher degree",
+        rule="W item per (unit pair, rep pair) asserting result type, collapse-to-raw-number iff the model product/quotient is unitless (also for a unit divided by a differently spelled equal unit: Hz / s^-1, L / dm^3, N / (kg m / s^2), u / (unos * u)), unit exponents, rep and a constant value; per (unit, rep) for int_pow<-4..4>, sqrt, cbrt, 1/q; witness pairs for the integer-division guard and as_raw_number; IR wrapper pair per (operation, unit pair, rep pair) compared by DAG equality with the raw operator; int_pow<N> per (rep, N): recursive helper unfolded on the constant exponent, result is the monomial x^N, no intermediate has higher degree, and for N < 0 no multiplication has an inverted operand (division last)",
         samples=[dict(key=items[0].key), dict(key=items[-1].key, code=items[-1].code)],
         exhaustive=False, w_items=len(items), w_mismatches=nbad, ir_pairs=nob[0], ir_equal=nob[1], configs=[c.name for c in configs], engine_stats=stats,
         int_pow_wrappers=npow,
-        not_decided="rounding of int_pow beyond 'it is the power x^N formed from powers of no higher degree'"))
+        not_decided="rounding of int_pow beyond 'it is the power x^N formed from powers of no higher degree, and for N < 0 the one division is applied last'"))
     ctx.assumptions += ["unblock_int_div path: acceptance, value and unit are checked; that it does not collapse to a raw number when the units cancel is a listed known finding"]
 
 
